@@ -224,14 +224,20 @@ theorem repair_keeps_undamaged (ps pps : Nat) (crc : Crc) (dir : Dir) (c : Corru
   | some p =>
     obtain ⟨k, seg⟩ := p
     dsimp only
-    rw [key _ _ (by intro x hx; simp at hx; subst hx; simp), key _ _ (by
+    rw [key _ _ (by
+      intro x hx
+      split at hx
+      · simp at hx
+      · simp at hx; subst hx; simp), key _ _ (by
       intro x hx
       simp only [List.mem_map] at hx
       obtain ⟨⟨i, b⟩, _, rfl⟩ := hx
       simp), idem]
 
 /-- **The repaired log accepts writes.**  After `Repair` (older segments intact, the corrupted one rewritten
-    from the kept records and padded, an empty active segment), any further batches can be logged and the
+    from the kept records and padded, an empty active segment — `afterRepair`, which is the state
+    `repairDir` leaves whenever the kept records fit one segment again, i.e. always unless a single record
+    is larger than a whole segment), any further batches can be logged and the
     closed log reads back, without error, as: the records of the older segments, the kept records, the
     new records — in this order, nothing else. -/
 theorem repaired_accepts_writes (ps pps : Nat) (crc : Crc) (hps : WF ps)
